@@ -95,6 +95,8 @@ type Network struct {
 	ValKeys  []crypto.PrivateKeyI // validator BLS keys, index = validator number
 	Stakes   []uint64
 	AcctKeys []crypto.PrivateKeyI // funded accounts (ed25519; every 4th is BLS)
+	SecpKeys []crypto.PrivateKeyI // funded secp256k1 accounts (Options.SchemeAccounts)
+	EthKeys  []crypto.PrivateKeyI // funded Ethereum-style secp256k1 accounts (Options.SchemeAccounts)
 	Genesis  *fsm.GenesisState
 	Config   lib.Config
 	Log      lib.LoggerI
@@ -115,6 +117,9 @@ type Options struct {
 	// mode (governance proposals listed in <dataDir>/proposals.json are accepted) instead of
 	// REJECT_ALL. See Node.OpenProposalVoteWindow.
 	ProposalVoteWindow bool
+	// SchemeAccounts: that many funded secp256k1 accounts and as many Ethereum-style secp256k1 accounts
+	// on top of AcctKeys (Network.SecpKeys, Network.EthKeys), so that blocks mix all four signature schemes.
+	SchemeAccounts int
 }
 
 // detKeyBytes derives 32 deterministic bytes for key number i of a kind.
@@ -138,6 +143,56 @@ func detBLS(seed int64, kind string, i int) crypto.PrivateKeyI {
 
 func detEd25519(seed int64, kind string, i int) crypto.PrivateKeyI {
 	return crypto.BytesToED25519Private(ed25519.NewKeyFromSeed(detKeyBytes(seed, kind, i)))
+}
+
+func detSecp(seed int64, kind string, i int) crypto.PrivateKeyI {
+	k, err := crypto.BytesToSECP256K1Private(detKeyBytes(seed, kind, i))
+	if err != nil {
+		panic(err)
+	}
+	return k
+}
+
+func detEth(seed int64, kind string, i int) crypto.PrivateKeyI {
+	k, err := crypto.BytesToEthSECP256K1Private(detKeyBytes(seed, kind, i))
+	if err != nil {
+		panic(err)
+	}
+	return k
+}
+
+// ColdSignatureCache empties the process-wide signature cache (crypto.SignatureCache): what a node has
+// after a restart, or for signatures it never saw. All nodes of the harness live in one process and
+// share that cache; the next verification of any signature on any node is a cold one.
+func ColdSignatureCache() {
+	if err := crypto.SignatureCache.Reset(); err != nil {
+		panic(RealCodeError{Where: "crypto.SignatureCache.Reset", Err: err.Error()})
+	}
+}
+
+// InvalidSignatureTxs verifies the signature of every transaction one by one with the key's own
+// VerifyBytes on a cold cache and returns the indices of those that do not verify (RLP-wrapped
+// Ethereum transactions, which are not verified over the sign bytes, are skipped).
+func InvalidSignatureTxs(txs [][]byte) (bad []int) {
+	was := crypto.DisableCache
+	crypto.DisableCache = true
+	defer func() { crypto.DisableCache = was }()
+	for i, bz := range txs {
+		tx := new(lib.Transaction)
+		if err := lib.Unmarshal(bz, tx); err != nil || tx.Signature == nil {
+			bad = append(bad, i)
+			continue
+		}
+		if tx.Memo == fsm.RLPIndicator || tx.Memo == fsm.RLPV2Indicator {
+			continue
+		}
+		pk, e := crypto.NewPublicKeyFromBytes(tx.Signature.PublicKey)
+		sb, err := tx.GetSignBytes()
+		if e != nil || err != nil || !pk.VerifyBytes(sb, tx.Signature.Signature) {
+			bad = append(bad, i)
+		}
+	}
+	return
 }
 
 // NewNetwork builds the genesis: nValidators validators (stakes[i], or 1e9 when stakes is short),
@@ -183,6 +238,13 @@ func NewNetwork(seed int64, nValidators int, stakes []uint64, nAccounts int, opt
 		}
 		n.AcctKeys = append(n.AcctKeys, k)
 		g.Accounts = append(g.Accounts, &fsm.Account{Address: k.PublicKey().Address().Bytes(), Amount: opt.AccountBalance})
+	}
+	for i := 0; i < opt.SchemeAccounts; i++ {
+		sk, ek := detSecp(seed, "secp", i), detEth(seed, "eth", i)
+		n.SecpKeys, n.EthKeys = append(n.SecpKeys, sk), append(n.EthKeys, ek)
+		for _, k := range []crypto.PrivateKeyI{sk, ek} {
+			g.Accounts = append(g.Accounts, &fsm.Account{Address: k.PublicKey().Address().Bytes(), Amount: opt.AccountBalance})
+		}
 	}
 	if opt.MutateGenesis != nil {
 		opt.MutateGenesis(g)
